@@ -165,6 +165,7 @@ impl Scenario for Bytes {
         }
         let rate_class = (run % 4) as u8;
         cfg.rate = rate_class;
+        cfg.obj = ((run / 16) % 2) as u8; // 1: the decoder under test is built through Default
         let rate_pct = [0u64, 1, 10, 40][rate_class as usize];
         let ncells = self.ncells(cfg.set) as u64;
         // faulty runs are numbered consecutively to walk the focus cells
@@ -206,7 +207,7 @@ impl Scenario for Bytes {
         let cfg = &trace.cfg;
         let pid = self.pid();
         let mut h = LogHash::new();
-        let mut real = DynSet::new(cfg.set);
+        let mut real = if cfg.obj == 1 { DynSet::via_default(cfg.set) } else { DynSet::new(cfg.set) };
         let mut kb = KbAny::new(cfg.set, DynLayout::Direct(2), hc(true));
         let mut m2 = RefSet2::new();
         let mut m1 = RefSet1::new();
